@@ -225,6 +225,105 @@ func applyVsSnapshot(root string) (bool, string) {
 	return true, fmt.Sprintf("state machine after restart %v (snapshot labelled index %d)", n.FSM.Ops, d.LastIncludedIndex)
 }
 
+// appendDuringRestore: a follower is inside a slow fsm.Restore of a received snapshot (lock released) when an older
+// AppendEntries request of the same leader - built before the leader compacted - arrives.  Whatever the follower
+// acknowledges must still be in its log when the installation has finished.
+func appendDuringRestore(root string) (bool, string) {
+	ids := []string{"0", "1", "2"}
+	c := sim.NewCluster(root, ids, 4, 2)
+	for _, id := range ids {
+		must(c.Open(id))
+		must(c.Bootstrap(id, ids))
+		must(c.Start(id))
+	}
+	elect(c, "0")
+	submit(c, "0", 1)
+	pump(c)
+	raft.VerifHeartbeat(c.Nodes["0"].R)
+	quiet()
+	pump(c)
+	n0, n2 := c.Nodes["0"], c.Nodes["2"]
+	// operations 2 and 3: node 1 replicates them; the requests to node 2 stay in the network
+	var held []*sim.Call
+	deliverExcept2 := func() {
+		for round := 0; round < 6; round++ {
+			for _, cl := range c.LiveCalls() {
+				if cl.Dst == "2" {
+					if !cl.Delivered {
+						seen := false
+						for _, h := range held {
+							seen = seen || h == cl
+						}
+						if !seen {
+							held = append(held, cl)
+						}
+					}
+					continue
+				}
+				if !cl.Delivered {
+					c.Deliver(cl, false)
+				} else {
+					c.Reply(cl, false)
+				}
+				quiet()
+			}
+		}
+	}
+	submit(c, "0", 2)
+	deliverExcept2()
+	submit(c, "0", 3)
+	deliverExcept2()
+	// pick the held request that carries both operations (prev = node 2's last index)
+	var x *sim.Call
+	for _, h := range held {
+		if h.Kind == "AE" && len(h.AE.Entries) >= 2 {
+			x = h
+		}
+	}
+	if x == nil {
+		return false, "setup: no held AppendEntries request carries operations 2 and 3"
+	}
+	// the leader snapshots and compacts; the other held requests are lost
+	n0.FSM.Need = true
+	raft.VerifSnapshotTick(n0.R)
+	quiet()
+	n0.FSM.Need = false
+	for _, h := range held {
+		if h != x {
+			c.Reply(h, true)
+			quiet()
+		}
+	}
+	// the snapshot reaches node 2, whose Restore is slow
+	n2.FSM.Close("Restore")
+	raft.VerifHeartbeat(n0.R)
+	quiet()
+	for _, cl := range c.LiveCalls() {
+		if cl.Dst == "2" && cl.Kind == "IS" && !cl.Delivered {
+			c.Deliver(cl, false)
+			quiet()
+			break
+		}
+	}
+	// now the old request arrives
+	c.Deliver(x, false)
+	quiet()
+	acked := false
+	if r, ok := x.Resp.(raft.AppendEntriesResponse); ok && x.Delivered && !x.Waiting {
+		acked = r.Success
+	}
+	top := x.AE.PrevLogIndex + uint64(len(x.AE.Entries))
+	n2.FSM.Open("Restore")
+	quiet()
+	d := raft.VerifDump(n2.R)
+	last := n2.Store.Log().LastIndex()
+	if acked && last < top {
+		return false, fmt.Sprintf("node 2 acknowledged an AppendEntries request up to index %d while it was restoring a snapshot, and its log ends at index %d after the installation (snapshot boundary %d): acknowledged entries were discarded",
+			top, last, d.LastIncludedIndex)
+	}
+	return true, fmt.Sprintf("old request acknowledged=%v, node 2 log ends at %d, snapshot boundary %d", acked, last, d.LastIncludedIndex)
+}
+
 // localSnapshotVsInstall: a follower has received the first chunk of a two-chunk snapshot (file created) when it
 // starts a local snapshot of its own, older state (file created later, Snapshot call slow); the final chunk arrives
 // and the received snapshot is complete before the local one.  The node must end up with the received state.
@@ -339,7 +438,8 @@ func main() {
 		name string
 		f    func(string) (bool, string)
 	}{{"snapshot-vs-apply", snapshotVsApply}, {"restore-vs-apply", restoreVsApply},
-		{"local-snapshot-vs-install", localSnapshotVsInstall}, {"apply-vs-snapshot", applyVsSnapshot}} {
+		{"local-snapshot-vs-install", localSnapshotVsInstall}, {"apply-vs-snapshot", applyVsSnapshot},
+		{"append-during-restore", appendDuringRestore}} {
 		ok, what := sc.f(root + "/" + sc.name)
 		if ok {
 			fmt.Printf("FSMRACE %s ok: %s\n", sc.name, what)
@@ -351,9 +451,14 @@ func main() {
 			// ... and an operation applied twice or skipped breaks "every submission is applied at most once", with
 			// later futures returning results that match no linearization
 			fmt.Printf("IMPL-VIOLATION C03 [%s] %s\n", sc.name, what)
+			if sc.name == "append-during-restore" {
+				// acknowledged entries that are discarded: the leader counts them towards a quorum that does not exist
+				fmt.Printf("IMPL-VIOLATION C01 [%s] %s\n", sc.name, what)
+				fmt.Printf("IMPL-VIOLATION C04 [%s] %s\n", sc.name, what)
+			}
 		}
 	}
-	fmt.Printf("FSMRACE scenarios=4 violations=%d\n", bad)
+	fmt.Printf("FSMRACE scenarios=5 violations=%d\n", bad)
 	if bad > 0 {
 		os.Exit(1)
 	}
